@@ -78,10 +78,10 @@ theorem clientshape_model_conforms (cfg : Cfg) (fuel : Nat) (h : Handle) (c : Ca
     rw [hm, hn]
     exact admits_admitsPrefix _ _ (suggest_shape_admits n)
   cases c with
-  | suggest count w alg => exact hsug count (some w) alg _ (by decide)
-  | getSuggestions count alg => exact hsug count none alg _ (by decide)
+  | suggest count w alg => exact hsug count (some w) alg _ (by simp only [callMethod]; decide)
+  | getSuggestions count alg => exact hsug count none alg _ (by simp only [callMethod]; decide)
   | addTrial params final inSpace =>
-    rcases addTrial_names cfg fuel h params final inSpace db with ⟨hn, _⟩ | hn <;> rw [hn] <;> decide
+    rcases addTrial_names cfg fuel h params final inSpace db with ⟨hn, _⟩ | hn <;> rw [hn] <;> simp only [callMethod] <;> decide
   | updateMetadata target kvs =>
     cases target <;> simp only [clientExec, rpc1, rpcNames, metadataReq, List.map_cons, List.map_nil, reqRpc, callMethod] <;> decide
   | _ => simp only [clientExec, rpc1, rpcNames, completeReq, List.map_cons, List.map_nil, reqRpc, callMethod] <;> decide
@@ -100,12 +100,12 @@ theorem clientshape_model_conforms_complete (cfg : Cfg) (fuel : Nat) (h : Handle
     rw [hm, hn]
     exact suggest_shape_admits n
   cases c with
-  | suggest count w alg => exact hsug count (some w) alg _ (by decide)
-  | getSuggestions count alg => exact hsug count none alg _ (by decide)
+  | suggest count w alg => exact hsug count (some w) alg _ (by simp only [callMethod]; decide)
+  | getSuggestions count alg => exact hsug count none alg _ (by simp only [callMethod]; decide)
   | addTrial params final inSpace =>
     rcases addTrial_names cfg fuel h params final inSpace db with ⟨_, hx⟩ | hn
     · rw [hx] at hret; cases hret
-    · rw [hn]; decide
+    · rw [hn]; simp only [callMethod]; decide
   | updateMetadata target kvs =>
     cases target <;> simp only [clientExec, rpc1, rpcNames, metadataReq, List.map_cons, List.map_nil, reqRpc, callMethod] <;> decide
   | _ => simp only [clientExec, rpc1, rpcNames, completeReq, List.map_cons, List.map_nil, reqRpc, callMethod] <;> decide
